@@ -1,5 +1,5 @@
 """Shared harness plumbing: a World wires the loaded code under test to the environment stubs for one path."""
-from .. import core, env, sim
+from .. import core, env, sim, sched
 from ..core import SymBytes, SymInt, as_sym, norm, sand, sor
 
 _TCACHE = {}
@@ -10,6 +10,10 @@ def transports(mods):
     if k not in _TCACHE:
         _TCACHE[k] = env.make_transports(mods)
     return _TCACHE[k]
+
+
+class Hang(Exception):
+    """the operation would block forever (self-deadlock on a lock, or an await that nothing completes)"""
 
 
 class Outcome:
@@ -71,6 +75,9 @@ class World:
         if impl == 'sync':
             self.transport = MemT(self.wire)
             self.drv = env.SyncDriver()
+            # non-reentrant lock stand-in: re-acquiring a held lock raises instead of blocking the harness forever
+            if getattr(mods.adb_device, 'Lock', None) is not sched.SchedLock:
+                mods.set_global('Lock', sched.SchedLock, only=('adb_device',))
             self.dev = mods.adb_device.AdbDevice(self.transport, default_transport_timeout_s=default_timeout, banner=banner)
         else:
             self.transport = MemTA(self.wire)
@@ -83,6 +90,8 @@ class World:
     def try_call(self, name, *a, **k):
         try:
             return Outcome(value=self.call(name, *a, **k))
+        except (sched.SelfDeadlock, env.CoroutineSuspended) as e:
+            return Outcome(exc=Hang(str(e)))
         except Exception as e:
             return Outcome(exc=e)
 
@@ -93,6 +102,10 @@ class World:
             for it in self.drv.iterate(getattr(self.dev, name)(*a, **k)):
                 items.append(it)
             return Outcome(value=items)
+        except (sched.SelfDeadlock, env.CoroutineSuspended) as e:
+            o = Outcome(exc=Hang(str(e)))
+            o.partial = items
+            return o
         except Exception as e:
             o = Outcome(exc=e)
             o.partial = items
